@@ -488,7 +488,24 @@ func main() {
 		b, _ := json.Marshal(p.in)
 		inputs[i] = string(b)
 	}
-	results := vlib.RunPool(inputs, 8, 10*time.Second, 4000000)
+	// run in chunks: once a dozen inputs have killed their worker the point is
+	// made, the remaining inputs are not run (each death costs seconds)
+	results := make([]vlib.WResult, 0, len(inputs))
+	dead := 0
+	for start := 0; start < len(inputs) && dead < 12; start += 256 {
+		end := start + 256
+		if end > len(inputs) {
+			end = len(inputs)
+		}
+		chunk := vlib.RunPool(inputs[start:end], 8, 10*time.Second, 4000000)
+		for _, r := range chunk {
+			if r.Status != "ok" {
+				dead++
+			}
+		}
+		results = append(results, chunk...)
+	}
+	pend = pend[:len(results)]
 	for i, p := range pend {
 		var wo wOut
 		status, fatal := statusCode(results[i])
